@@ -94,6 +94,9 @@ out = {'min_eig': float(w[0]), 'max_eig': float(w[-1]), 'n_negative': int((w < -
 HESSIAN_ALL = COMMON + r"""
 payload = dict(payload); payload.setdefault('nx', 1201); payload.setdefault('nt', 64)
 cc = make(payload)
+for _k in ('ku', 'kv', 'kw', 'kphix', 'kphit'):
+    for _e in ('Bot', 'Top'):
+        setattr(cc, _k + _e, 0.)      # no elastic edge restraint: k0 is the strain-energy part only
 cc._calc_linear_matrices()
 k0 = np.asarray(cc.k0.todense())
 F = np.asarray(cc.F, dtype=float)
